@@ -15,6 +15,17 @@ Engines (all exhaustive over their stated bounds, oracle = mc.ref.merkleref):
   retarget    calculate_new_bits vs CalculateNextWorkRequired across both clamps
   chain       HeadersMessage.is_valid over all chains of <= 3 (4) harness-mined headers with each
               link / proof of work broken
+  spv-deep    single alterations of proofs of deep trees (11..5000 leaves)
+  root-dup    every list over a 3-letter alphabet (repeated / adjacent-equal elements)
+  spv-dup     proofs over repeated hashes (blocks with repeated ids; count raised + tail repeated): only
+              "valid => block ids proved" is asserted, verdicts are recorded
+  blockparse  Block.parse of legacy/segwit blocks -> tx_hashes -> validate_merkle_root
+  target      Block.target() / Block.difficulty()
+  block-reuse / chain-reuse   E2 histories on ONE Block / HeadersMessage object against the reference
+  chain-ext   per-header bits, repeated header, long chains
+
+Not asserted anywhere (the API has no network context / BIP37 does not commit to the depth): the network
+proof-of-work limit in check_pow / HeadersMessage.is_valid, and depth-truncated proofs.
 """
 import struct
 from io import BytesIO
@@ -511,6 +522,13 @@ def header_eval(res, vc, raw, nt):
         res.violation("C17/header/reserialize", vc, ser, raw, "parse_header -> serialize does not reproduce the 80 bytes")
     else:
         res.ok("reserialize==raw")
+    # second entry point of the same parser: parse_header(hex=...)
+    hx = attempt(lambda: Block.parse_header(hex=raw.hex()))
+    got_hx = attempt(lambda: (hx.version, bytes(hx.prev_block), bytes(hx.merkle_root), hx.timestamp, bytes(hx.bits), bytes(hx.nonce), hx.serialize()))
+    if got_hx != want_fields + (raw,):
+        res.violation("C17/header/parse_header-hex-form", vc, str(got_hx)[:300], str(want_fields + (raw,))[:300], "parse_header(hex=...) gives other fields / bytes than the encoded header")
+    else:
+        res.ok("hex-form:fields+bytes==ref", ("hex",) + tuple(nt) if nt is not None else None)
     built = attempt(lambda: Block(*want_fields).serialize())
     if built != raw:
         res.violation("C17/header/serialize", vc, built, raw, "Block(...).serialize() differs from the reference header encoding")
@@ -846,6 +864,13 @@ def gen_retarget(tier, seed):
         ms.append(0x008000 + int.from_bytes(filler(seed, "mant", e, 3), "big") % (0x7FFFFF - 0x008000))
         for m in ms:
             cases.append({"bits": (e << 24) | m, "seed": seed})
+    if tier == "thorough":
+        # mantissa density: a strided sweep of the whole non-negative mantissa range for the exponents of real chains
+        have = {c["bits"] for c in cases}
+        for e in range(0x17, 0x1E):
+            for m in range(0x008000, 0x800000, 0x1357):
+                if ((e << 24) | m) not in have:
+                    cases.append({"bits": (e << 24) | m, "seed": seed})
     return cases
 
 
@@ -978,6 +1003,744 @@ def run_chain(case):
     return res
 
 
+# ------------------------------------------------------------------ engine: spv-deep (tampering of deep trees)
+DEEP_QUICK = [11, 13, 16, 17, 33, 65, 257]
+DEEP_THOROUGH = list(range(11, 18)) + [31, 32, 33, 63, 64, 65, 100, 127, 128, 129, 255, 257, 1000, 1023, 1025, 5000]
+DEEP_SMALL_SETS = ("first", "last", "middle", "first+last", "last-two")
+DEEP_ALL_SETS = DEEP_SMALL_SETS + ("none", "odds", "all", "every-third")
+DEEP_TOTAL_BITS = 18
+DEEP_ROOT_BITS = (0, 1, 127, 128, 254, 255)
+
+
+def deep_sets(n):
+    return DEEP_ALL_SETS if n <= 130 else DEEP_SMALL_SETS
+
+
+def gen_spv_deep(tier, seed):
+    sizes = DEEP_QUICK if tier == "quick" else DEEP_THOROUGH
+    return [{"n": n, "set": nm, "seed": seed} for n in sorted(sizes, reverse=True) for nm in deep_sets(n)]
+
+
+def deep_tampers(n, hashes, flag_bytes, foreign):
+    """Like tampers(), for long hash lists: ONE bit per hash (position (37 i + 11 n) mod 256), a few root bits, every flag
+    bit, count bits 0..17 and count values around n, every dropped / duplicated / swapped hash, a foreign hash at both ends."""
+    for i, h in enumerate(hashes):
+        b = (37 * i + 11 * n) % 256
+        x = bytearray(h)
+        x[b // 8] ^= 1 << (b % 8)
+        yield ("hash-bit", (i, b), n, hashes[:i] + [bytes(x)] + hashes[i + 1 :], flag_bytes, None)
+    for b in DEEP_ROOT_BITS:
+        yield ("root-bit", b, n, hashes, flag_bytes, b)
+    for i in range(len(flag_bytes)):
+        for b in range(8):
+            x = bytearray(flag_bytes)
+            x[i] ^= 1 << b
+            yield ("flag-bit", (i, b), n, hashes, bytes(x), None)
+    yield ("flags-resize", "drop-last", n, hashes, flag_bytes[:-1], None)
+    for v in (0x00, 0x01, 0x80, 0xFF):
+        yield ("flags-resize", f"append-{v:02x}", n, hashes, flag_bytes + bytes([v]), None)
+    for b in range(DEEP_TOTAL_BITS):
+        yield ("total-bit", b, n ^ (1 << b), hashes, flag_bytes, None)
+    for v in sorted({1, 2, n - 1, n + 1, 2 * n, 2 * n + 1, (n + 1) // 2, n // 2} - {n}):
+        if v >= 0:
+            yield ("total-set", v, v, hashes, flag_bytes, None)
+    for i in range(len(hashes)):
+        yield ("drop-hash", i, n, hashes[:i] + hashes[i + 1 :], flag_bytes, None)
+        yield ("dup-hash", i, n, hashes[: i + 1] + [hashes[i]] + hashes[i + 1 :], flag_bytes, None)
+        if i + 1 < len(hashes):
+            yield ("swap-hash", i, n, hashes[:i] + [hashes[i + 1], hashes[i]] + hashes[i + 2 :], flag_bytes, None)
+    for pos in sorted({0, len(hashes)}):
+        yield ("extra-hash", pos, n, hashes[:pos] + [foreign] + hashes[pos:], flag_bytes, None)
+
+
+def tamper_eval(res, engine, vc, key0, idset, hdr, alterations):
+    """Shared oracle of the tamper engines: is_valid() True => only block ids proved; altered hash list / root => not valid."""
+    for cls, detail, total, hashes2, fb2, rootbit in alterations:
+        h2 = hdr
+        if rootbit is not None:
+            x = bytearray(hdr)
+            x[36 + rootbit // 8] ^= 1 << (rootbit % 8)
+            h2 = bytes(x)
+        ok, proved, how = lib_check(R.ser_merkleblock(h2, total, hashes2, fb2))
+        key = key0 + (cls, detail)
+        if not ok:
+            res.ok(f"{cls}:rejected", key)
+            continue
+        if any(p not in idset for p in proved):
+            res.violation(
+                f"C17/{engine}/foreign-id-proved/{cls}",
+                vc,
+                {"tamper": [cls, detail], "total": total, "proved": [p.hex() if isinstance(p, bytes) else repr(p) for p in proved][:4]},
+                "is_valid() False, or only block ids proved",
+                "an altered proof validates and proves an id that is not in the block",
+            )
+        elif cls in MUST_FAIL:
+            res.violation(f"C17/{engine}/altered-proof-validates/{cls}", vc, {"tamper": [cls, detail], "is_valid": True}, "validation fails", "a proof with an altered hash list / header root still validates")
+        else:
+            res.ok(f"{cls}:accepted-benign(only block ids proved)", key)
+
+
+def run_spv_deep(case):
+    res = Res()
+    n, seed, nm = case["n"], case["seed"], case["set"]
+    vc = {"engine": "spv-deep", "case": case}
+    leaves = leaves_for(seed, n)
+    idset = {h[::-1] for h in leaves}
+    sets = dict(structured_sets(n, True))
+    sets["last-two"] = {max(0, n - 2), n - 1}
+    st = sets[nm]
+    match = [1 if i in st else 0 for i in range(n)]
+    memo = {}
+    t = R.PartialTreeShape(n)
+    root = t.calc_hash(t.height, 0, leaves, memo)
+    hdr = proof_header(seed, root)
+    bits, hs = R.build_partial(leaves, match, memo)
+    fb = R.pack_bits(bits)
+    ok, proved, how = lib_check(R.ser_merkleblock(hdr, n, hs, fb))
+    if not ok or proved != [leaves[i][::-1] for i in range(n) if match[i]]:
+        res.skip("honest proof rejected / proves other ids (reported by spv-honest / spv-sizes)")
+        return res
+    res.ok("honest:valid+proved==matched", (n, nm), sample={"n": n, "set": nm, "hashes": len(hs), "flag_bits": len(bits)} if nm == "first+last" and n in (65, 5000) else None)
+    tamper_eval(res, "spv-deep", vc, (n, nm), idset, hdr, deep_tampers(n, hs, fb, filler(seed, "foreign", 0)))
+    return res
+
+
+# ------------------------------------------------------------------ engine: root-dup / spv-dup (non-distinct leaves)
+def letters(seed):
+    return [filler(seed, "letter", i) for i in range(3)]
+
+
+def gen_root_dup(tier, seed):
+    top = 6 if tier == "quick" else 8
+    return [{"len": ln, "first": f, "seed": seed} for ln in range(1, top + 1) for f in range(3)]
+
+
+def run_root_dup(case):
+    import itertools
+
+    from buidl.block import Block
+    from buidl.helper import merkle_parent_level, merkle_root
+
+    res = Res()
+    vc = {"engine": "root-dup", "case": case}
+    abc = letters(case["seed"])
+    ln = case["len"]
+    for rest in itertools.product(range(3), repeat=ln - 1):
+        word = (case["first"],) + rest
+        leaves = [abc[i] for i in word]
+        distinct = len(set(word)) == ln
+        cls = "distinct" if distinct else "adjacent-equal" if any(word[i] == word[i + 1] for i in range(0, ln - 1, 2)) else "repeated"
+        want = R.merkle_root(leaves)
+        got = attempt(merkle_root, list(leaves))
+        if got != want:
+            res.violation(f"C17/root-dup/merkle_root/{cls}", dict(vc, word=list(word)), got, want, "merkle_root of a list with repeated elements differs from Bitcoin's Merkle root")
+        else:
+            res.ok("merkle_root==ref", None if distinct or ln < 2 else word)
+        if ln >= 2:
+            lvl = attempt(merkle_parent_level, list(leaves))
+            wl = [R.dsha(leaves[i] + (leaves[i + 1] if i + 1 < ln else leaves[i])) for i in range(0, ln, 2)]
+            if lvl != wl:
+                res.violation(f"C17/root-dup/merkle_parent_level/{cls}", dict(vc, word=list(word)), str(lvl)[:200], str(wl)[:200], "merkle_parent_level differs from pairwise double-SHA256 with last-element duplication")
+            else:
+                res.ok("parent_level==ref")
+        ids = [h[::-1] for h in leaves]
+
+        def vmr(root_id):
+            return Block(1, b"\x00" * 32, root_id, 0, le4(0x207FFFFF), b"\x00" * 4, tx_hashes=list(ids)).validate_merkle_root()
+
+        if attempt(vmr, want[::-1]) is not True:
+            res.violation(f"C17/root-dup/validate_merkle_root/rejects-correct/{cls}", dict(vc, word=list(word)), False, True, "validate_merkle_root rejects the correct root of a list with repeated ids")
+        else:
+            res.ok("validate==True")
+        flipped = bytearray(want[::-1])
+        flipped[ln % 32] ^= 0x40
+        if attempt(vmr, bytes(flipped)) is True:
+            res.violation(f"C17/root-dup/validate_merkle_root/accepts-bitflip/{cls}", dict(vc, word=list(word)), True, False, "validate_merkle_root accepts a wrong root")
+        else:
+            res.ok("validate-wrong-root-rejected")
+    return res
+
+
+def mutations(leaves, cap):
+    """Lists with the SAME Merkle root obtained by repeating the last node of an odd level (CVE-2012-2459)."""
+    out = []
+    cur = list(leaves)
+    root = R.merkle_root(leaves)
+    while True:
+        m = len(cur)
+        h = (m & -m).bit_length() - 1
+        if (m >> h) <= 1:
+            break
+        cur = cur + cur[-(1 << h) :]
+        if len(cur) > cap:
+            break
+        assert R.merkle_root(cur) == root
+        out.append(list(cur))
+    return out
+
+
+def gen_spv_dup(tier, seed):
+    import itertools
+
+    cases = []
+    top = 4 if tier == "quick" else 6
+    for n in range(2, top + 1):
+        for first in range(3):
+            cases.append({"kind": "leaves", "n": n, "first": first, "seed": seed})
+    ntop, cap = (7, 8) if tier == "quick" else (11, 12)
+    for n in range(1, ntop + 1):
+        for mut in mutations(leaves_for(seed, n), cap):
+            s = len(mut)
+            for lo in range(0, 1 << s, 256):
+                cases.append({"kind": "mutated", "n": n, "size": s, "lo": lo, "hi": min(1 << s, lo + 256), "seed": seed})
+    return cases
+
+
+def dup_eval(res, vc, key, hdr, total, leaves_used, match, block_ids, label):
+    """Statement only: a validating proof yields block ids.  The verdict itself (library and reference extractor, which
+    rejects identical left/right hashes) is recorded, never asserted."""
+    bits, hs = R.build_partial(leaves_used, match)
+    fb = R.pack_bits(bits)
+    ok, proved, how = lib_check(R.ser_merkleblock(hdr, total, hs, fb))
+    r = R.extract_matches(total, hs, fb)
+    ref = "accepts" if r is not None and r[0][::-1] == R.parse_header(hdr)["root_id"] else "rejects"
+    if ok and any(p not in block_ids for p in proved):
+        res.violation(f"C17/spv-dup/foreign-id-proved/{label}", vc, {"match": match, "proved": [p.hex() for p in proved][:4]}, "only block ids proved", "a validating proof over repeated hashes proves an id that is not in the block")
+    else:
+        res.ok(f"{label}:library {'validates (only block ids proved)' if ok else 'rejects'}; reference extractor {ref}", key, sample={"case": label, "total": total, "matched": sum(match), "library_valid": ok, "reference": ref} if sum(match) == total and total in (3, 4) else None)
+
+
+def run_spv_dup(case):
+    import itertools
+
+    res = Res()
+    seed = case["seed"]
+    vc = {"engine": "spv-dup", "case": case}
+    if case["kind"] == "leaves":
+        n = case["n"]
+        abc = letters(seed)
+        for rest in itertools.product(range(3), repeat=n - 1):
+            word = (case["first"],) + rest
+            if len(set(word)) == n:
+                continue  # distinct leaves: engine spv-honest
+            leaves = [abc[i] for i in word]
+            hdr = proof_header(seed, R.merkle_root(leaves))
+            ids = {l[::-1] for l in leaves}
+            for mask in range(1 << n):
+                dup_eval(res, vc, (word, mask), hdr, n, leaves, mask_bits(n, mask), ids, "block-with-repeated-ids")
+    else:
+        n, s = case["n"], case["size"]
+        leaves = leaves_for(seed, n)
+        mut = [m for m in mutations(leaves, s) if len(m) == s][0]
+        hdr = proof_header(seed, R.merkle_root(leaves))
+        ids = {l[::-1] for l in leaves}
+        for mask in range(case["lo"], case["hi"]):
+            dup_eval(res, vc, (n, s, mask), hdr, s, mut, mask_bits(s, mask), ids, "count-raised-tail-repeated")
+    return res
+
+
+# ------------------------------------------------------------------ engine: blockparse (Block.parse entry point)
+def raw_tx(seed, i, segwit):
+    """Hand-serialised transaction i (1-2 inputs, 1-3 outputs).  Returns (wire bytes, txid hash, wtxid hash), internal order."""
+    nin, nout = 1 + i % 2, 1 + i % 3
+    ver = le4(2 if segwit else 1)
+    ins = b""
+    for k in range(nin):
+        ins += filler(seed, "bp-prev", 8 * i + k) + le4(k) + (b"\x00" if segwit else b"\x02\x51\x51") + le4(0xFFFFFFFE)
+    outs = b""
+    for k in range(nout):
+        spk = b"\x00\x14" + filler(seed, "bp-spk", 8 * i + k, 20) if k % 2 == 0 else b"\x51"
+        outs += struct.pack("<Q", 1000 * (i + 1) + k) + R.compact_size(len(spk)) + spk
+    wit = b""
+    for k in range(nin):
+        wit += b"\x02" + b"\x02\xaa" + bytes([k]) + b"\x21" + filler(seed, "bp-wit", 8 * i + k, 33)
+    lock = le4(i)
+    body = R.compact_size(nin) + ins + R.compact_size(nout) + outs
+    stripped = ver + body + lock
+    full = ver + b"\x00\x01" + body + wit + lock if segwit else stripped
+    return full, R.dsha(stripped), R.dsha(full)
+
+
+def gen_blockparse(tier, seed):
+    top = 7 if tier == "quick" else 9
+    return [{"n": n, "seed": seed} for n in range(top, 0, -1)]
+
+
+def run_blockparse(case):
+    from buidl.block import Block
+
+    res = Res()
+    n, seed = case["n"], case["seed"]
+    vc = {"engine": "blockparse", "case": case}
+    txs = [(raw_tx(seed, i, False), raw_tx(seed, i, True)) for i in range(n)]
+    prev = filler(seed, "bp-prevblock", 0)
+
+    def lib(root, body):
+        raw = R.ser_header(0x20000000, prev, root[::-1], 1600000000, 0x207FFFFF, 3) + body
+
+        def go():
+            b = Block.parse(BytesIO(raw))
+            return [bytes(h) for h in b.tx_hashes], b.validate_merkle_root(), b.hash(), len(b.txs)
+
+        return attempt(go), R.header_id(raw[:80])
+
+    for pattern in range(1 << n):
+        chosen = [txs[i][(pattern >> i) & 1] for i in range(n)]
+        body = R.compact_size(n) + b"".join(c[0] for c in chosen)
+        txids = [c[1] for c in chosen]
+        cls = "with-segwit" if pattern else "legacy-only"
+        vcp = dict(vc, pattern=pattern)
+        root = R.merkle_root(txids)
+        got, hid = lib(root, body)
+        if isinstance(got, Rejected):
+            res.violation(f"C17/blockparse/parse-rejected/{cls}", vcp, repr(got), "parses", "a well-formed block is rejected by Block.parse")
+            continue
+        hashes, valid, bh, ntx = got
+        if hashes != [t[::-1] for t in txids] or ntx != n:
+            res.violation(f"C17/blockparse/tx_hashes/{cls}", vcp, [h.hex() for h in hashes][:4], [t[::-1].hex() for t in txids][:4], "Block.parse: tx_hashes are not the transaction ids (double-SHA256 of the serialisation without witness, reversed) in block order")
+        else:
+            res.ok("tx_hashes==txids", (n, pattern))
+        if valid is not True:
+            res.violation(f"C17/blockparse/validate/rejects-correct/{cls}", vcp, valid, True, "validate_merkle_root of a parsed block rejects the Merkle root of its transaction ids")
+        else:
+            res.ok("validate==True", (n, pattern, "v"))
+        if bh != hid:
+            res.violation("C17/blockparse/header-hash", vcp, bh, hid, "hash() of a parsed block is not the hash of its first 80 bytes")
+        else:
+            res.ok("hash==ref")
+        wrongs = {}
+        wroot = R.merkle_root([c[2] for c in chosen])
+        if wroot != root:
+            wrongs["wtxid-root"] = wroot
+        fl = bytearray(root)
+        fl[(n + pattern) % 32] ^= 0x08
+        wrongs["bitflip"] = bytes(fl)
+        if n >= 2:
+            wrongs["first-two-swapped"] = R.merkle_root([txids[1], txids[0]] + txids[2:])
+        for nm, w in wrongs.items():
+            got, _ = lib(w, body)
+            if not isinstance(got, Rejected) and got[1] is True:
+                res.violation(f"C17/blockparse/validate/accepts-{nm}", vcp, True, False, "validate_merkle_root of a parsed block accepts a header whose Merkle root is not the root of the transaction ids")
+            else:
+                res.ok(f"validate-{nm}-rejected", (n, pattern, nm))
+    return res
+
+
+# ------------------------------------------------------------------ engine: target (Block.target / Block.difficulty)
+def gen_target(tier, seed):
+    return [{"e": e, "half": h} for e in range(3, 0x23) for h in range(2)]
+
+
+def run_target(case):
+    import math
+
+    from buidl.block import Block
+
+    res = Res()
+    e = case["e"]
+    vc = {"engine": "target", "case": case}
+    mants = structured_mantissas()
+    mants = mants[: len(mants) // 2] if case["half"] == 0 else mants[len(mants) // 2 :]
+    n_t = n_d = n_skip = n_zero = 0
+    first = {}
+    for m in mants:
+        c = (e << 24) | m
+        v, neg, over = R.set_compact(c)
+        if neg or over:
+            n_skip += 1
+            continue
+        blk = Block(1, b"\x00" * 32, b"\x00" * 32, 0, le4(c), b"\x00" * 4)
+        t = attempt(blk.target)
+        if type(t) is not int or t != v:
+            first.setdefault("C17/target/target()", [0, {"bits": hex(c), "target": repr(t) if not isinstance(t, int) else hex(t)}, hex(v), "Block.target() is not the consensus target of the header's bits"])[0] += 1
+        else:
+            n_t += 1
+        if v == 0:
+            n_zero += 1
+            continue
+        # difficulty = (0xffff * 256^26) / target = (0xffff / mantissa) * 2^(8 * (0x1d - exponent)); the scaling by a power of two is exact
+        want = math.ldexp(0xFFFF / m, 8 * (0x1D - e))
+        d = attempt(blk.difficulty)
+        if type(d) is not float or d != want:
+            first.setdefault("C17/target/difficulty", [0, {"bits": hex(c), "difficulty": repr(d)}, repr(want), "Block.difficulty() is not difficulty-1 target / target (correctly rounded double)"])[0] += 1
+        else:
+            n_d += 1
+    res.bulk("target()==SetCompact", n_t, n_t)
+    res.bulk("difficulty==0xffff*2^208/target", n_d, n_d)
+    if n_skip:
+        res.skip("negative / overflowing bits: no consensus target", n_skip)
+    if n_zero:
+        res.skip("target 0: difficulty undefined", n_zero)
+    if e == 0x1B and case["half"] == 0:
+        res.samples.append({"bits": "0x1b0404cb", "difficulty": math.ldexp(0xFFFF / 0x0404CB, 16)})
+    for fp, (cnt, obs, exp, what) in first.items():
+        res.violation(fp, vc, obs, exp, what)
+        if cnt > 1:
+            res.bulk("VIOLATION", cnt - 1)
+            res.n_violations += cnt - 1
+    return res
+
+
+# ------------------------------------------------------------------ engine: block-reuse (E2: histories on ONE Block object)
+def reuse_alphabet(seed):
+    a = [filler(seed, "ru-txa", i) for i in range(3)]
+    b = [filler(seed, "ru-txb", i) for i in range(4)]
+    ra, rb = R.merkle_root([x[::-1] for x in a])[::-1], R.merkle_root([x[::-1] for x in b])[::-1]
+    return {
+        "version": [1, 0x20000000, 0xFFFFFFFF],
+        "prev_block": [filler(seed, "ru-prev", 0), b"\x00" * 32, filler(seed, "ru-prev", 1)],
+        "merkle_root": [ra, rb, b"\xff" * 32],
+        "timestamp": [1600000000, 0, 0xFFFFFFFF],
+        "bits": [0x207FFFFF, 0x1D00FFFF, 0x2000FFFF],
+        "nonce": [0, 1, 0xFFFFFFFF],
+        "tx_hashes": [a, b, a + [a[-1]], "last:=other"],
+    }
+
+
+REUSE_FIELDS = ["version", "prev_block", "merkle_root", "timestamp", "bits", "nonce", "tx_hashes"]
+OBSERVABLES = ["serialize", "hash", "id", "check_pow", "target", "validate_merkle_root"]
+
+
+def reuse_ops(seed):
+    al = reuse_alphabet(seed)
+    return [(f, i) for f in REUSE_FIELDS for i in range(len(al[f]))]
+
+
+def gen_block_reuse(tier, seed):
+    ops = reuse_ops(seed)
+    depth = 3 if tier == "quick" else 4
+    cases = [{"kind": "history", "prefix": [list(a), list(b)], "depth": depth, "seed": seed} for a in ops for b in ops]
+    cases.append({"kind": "nonce-sweep", "n": 512 if tier == "quick" else 8192, "seed": seed})
+    return cases
+
+
+def _reuse_build(state):
+    from buidl.block import Block
+
+    return Block(state["version"], state["prev_block"], state["merkle_root"], state["timestamp"], le4(state["bits"]), le4(state["nonce"]), tx_hashes=list(state["tx_hashes"]))
+
+
+def _reuse_observe(blk):
+    return (
+        attempt(blk.serialize),
+        attempt(blk.hash),
+        attempt(blk.id),
+        attempt(blk.check_pow) is True,
+        attempt(blk.target),
+        attempt(blk.validate_merkle_root) is True,
+    )
+
+
+def _reuse_expected(state):
+    raw = R.ser_header(state["version"], state["prev_block"], state["merkle_root"], state["timestamp"], state["bits"], state["nonce"])
+    hid = R.header_id(raw)
+    return (
+        raw,
+        hid,
+        hid.hex(),
+        R.check_pow(R.header_hash(raw), state["bits"]),
+        R.set_compact(state["bits"])[0],
+        R.merkle_root([h[::-1] for h in state["tx_hashes"]])[::-1] == state["merkle_root"],
+    )
+
+
+def _reuse_compare(res, vc, blk, state, step, nt):
+    got, want = _reuse_observe(blk), _reuse_expected(state)
+    res.transitions += 1
+    if got == want:
+        res.ok(f"same object == reference (check_pow {want[3]}, merkle root {'matches' if want[5] else 'differs'})", nt)
+        return True
+    fresh = _reuse_observe(_reuse_build(state))
+    for nm, g, w, f in zip(OBSERVABLES, got, want, fresh):
+        if g == w:
+            continue
+        if f != w:
+            res.skip(f"{nm}: a fresh object differs from the reference too (reported by engines header / pow / root)")
+        else:
+            res.violation(f"C17/block-reuse/stale-{nm}", dict(vc, step=step), g, w, f"after assigning header fields on the same Block object {nm}() differs from the reference and from a fresh object with the same fields")
+    return False
+
+
+def run_block_reuse(case):
+    res = Res()
+    seed = case["seed"]
+    vc = {"engine": "block-reuse", "case": case}
+    al = reuse_alphabet(seed)
+    init = {f: al[f][0] for f in REUSE_FIELDS}
+
+    def apply(blk, state, op):
+        f, i = op
+        v = al[f][i]
+        if f == "tx_hashes":
+            if v == "last:=other":  # in-place edit of the list the object holds
+                other = filler(seed, "ru-other", 0)
+                blk.tx_hashes[-1] = other
+                state[f] = list(state[f][:-1]) + [other]
+            else:
+                blk.tx_hashes = list(v)
+                state[f] = list(v)
+        elif f in ("bits", "nonce"):
+            setattr(blk, f, le4(v))
+            state[f] = v
+        else:
+            setattr(blk, f, v)
+            state[f] = v
+
+    if case["kind"] == "nonce-sweep":
+        state = dict(init)
+        blk = _reuse_build(state)
+        for nonce in range(case["n"]):
+            blk.nonce = le4(nonce)
+            state["nonce"] = nonce
+            if not _reuse_compare(res, vc, blk, state, nonce, ("sweep", nonce)):
+                break
+        res.states += case["n"]
+        return res
+    ops = reuse_ops(seed)
+    prefix = [tuple(o) for o in case["prefix"]]
+    import itertools
+
+    for tail in itertools.product(ops, repeat=case["depth"] - len(prefix)):
+        hist = prefix + list(tail)
+        state = dict(init)
+        state["tx_hashes"] = list(state["tx_hashes"])
+        blk = _reuse_build(state)
+        if not _reuse_compare(res, vc, blk, state, -1, None):  # populates whatever the object keeps between calls
+            return res
+        for k, op in enumerate(hist):
+            apply(blk, state, op)
+            if not _reuse_compare(res, dict(vc, history=[list(o) for o in hist[: k + 1]]), blk, state, k, tuple(hist[: k + 1])):
+                return res
+        res.states += 1 + len(hist)
+    return res
+
+
+# ------------------------------------------------------------------ engine: chain-reuse (E2: histories on ONE HeadersMessage object)
+CR_BITS = 0x207FFFFF
+
+
+def cr_ops():
+    ops = []
+    for i in range(3):
+        ops += [("replace", i, "badpow"), ("replace", i, "unlinked"), ("replace", i, "orig")]
+        ops += [("inplace-nonce", i, ""), ("inplace-prev", i, ""), ("inplace-restore", i, "")]
+    ops += [("swap", 0, ""), ("swap", 1, ""), ("pop", 0, ""), ("append", 0, "good"), ("append", 0, "unlinked")]
+    return ops
+
+
+def gen_chain_reuse(tier, seed):
+    ops = cr_ops()
+    depth = 3 if tier == "quick" else 4
+    return [{"prefix": [list(a), list(b)], "depth": depth, "seed": seed} for a in ops for b in ops]
+
+
+def _flip(h, bit):
+    x = bytearray(h)
+    x[bit // 8] ^= 1 << (bit % 8)
+    return bytes(x)
+
+
+def run_chain_reuse(case):
+    import itertools
+
+    from buidl.block import Block
+    from buidl.network import HeadersMessage
+
+    res = Res()
+    seed = case["seed"]
+    vc = {"engine": "chain-reuse", "case": case}
+    orig = []
+    prev = b"\x00" * 32
+    for i in range(3):
+        raw = mine(1, prev, filler(seed, "cr-root", i), 1600000000 + i, CR_BITS, True)
+        orig.append(raw)
+        prev = R.header_id(raw)
+
+    def fields(raw):
+        return R.parse_header(raw)
+
+    def remine(raw, good, prev=None):
+        f = fields(raw)
+        return mine(f["version"], f["prev_id"] if prev is None else prev, f["root_id"], f["time"], f["bits"], good)
+
+    def apply(msg, model, op, step):
+        """Returns False when the operation does not apply to the current list."""
+        kind, i, arg = op
+        if kind == "replace":
+            if i >= len(model):
+                return False
+            if arg == "orig":
+                raw = orig[i]
+            elif arg == "badpow":
+                raw = remine(model[i], False)
+            else:
+                raw = remine(model[i], True, _flip(fields(model[i])["prev_id"], (step * 67 + i * 13 + 5) % 256))
+            model[i] = raw
+            msg.headers[i] = Block.parse_header(BytesIO(raw))
+        elif kind == "inplace-nonce":
+            if i >= len(model):
+                return False
+            raw = remine(model[i], False)
+            model[i] = raw
+            msg.headers[i].nonce = le4(fields(raw)["nonce"])
+        elif kind == "inplace-prev":
+            if i >= len(model):
+                return False
+            f = fields(model[i])
+            raw = R.ser_header(f["version"], _flip(f["prev_id"], (step * 31 + i * 7 + 3) % 256), f["root_id"], f["time"], f["bits"], f["nonce"])
+            model[i] = raw
+            msg.headers[i].prev_block = fields(raw)["prev_id"]
+        elif kind == "inplace-restore":
+            if i >= len(model):
+                return False
+            f = fields(orig[i])
+            h = msg.headers[i]
+            h.version, h.prev_block, h.merkle_root, h.timestamp, h.bits, h.nonce = f["version"], f["prev_id"], f["root_id"], f["time"], le4(f["bits"]), le4(f["nonce"])
+            model[i] = orig[i]
+        elif kind == "swap":
+            if i + 1 >= len(model):
+                return False
+            model[i], model[i + 1] = model[i + 1], model[i]
+            msg.headers[i], msg.headers[i + 1] = msg.headers[i + 1], msg.headers[i]
+        elif kind == "pop":
+            if not model:
+                return False
+            model.pop()
+            msg.headers.pop()
+        else:
+            last = R.header_id(model[-1]) if model else b"\x00" * 32
+            if arg == "unlinked":
+                last = _flip(last, (step * 41 + 9) % 256)
+            raw = mine(1, last, filler(seed, "cr-app", step), 1600000100 + step, CR_BITS, True)
+            model.append(raw)
+            msg.headers.append(Block.parse_header(BytesIO(raw)))
+        return True
+
+    def compare(msg, model, hist):
+        got = attempt(msg.is_valid) is True
+        want = R.chain_valid(model)
+        res.transitions += 1
+        if got == want:
+            res.ok("same object == reference: " + ("accepted" if want else "rejected"), tuple(hist) if hist else None)
+            return True
+        fresh = attempt(lambda: HeadersMessage.parse(BytesIO(R.ser_headers_msg(model))).is_valid()) is True
+        if fresh != want:
+            res.skip("a fresh message differs from the reference too (reported by engine chain)")
+        else:
+            res.violation(
+                "C17/chain-reuse/stale-verdict/" + ("broken-chain-accepted" if got else "valid-chain-rejected"),
+                dict(vc, history=[list(o) for o in hist]),
+                got,
+                want,
+                "after editing the same HeadersMessage object is_valid() differs from the reference and from a fresh message with the same headers",
+            )
+        return False
+
+    ops = cr_ops()
+    prefix = [tuple(o) for o in case["prefix"]]
+    for tail in itertools.product(ops, repeat=case["depth"] - len(prefix)):
+        hist = prefix + list(tail)
+        model = list(orig)
+        msg = HeadersMessage.parse(BytesIO(R.ser_headers_msg(model)))
+        if not compare(msg, model, []):
+            return res
+        done = []
+        for k, op in enumerate(hist):
+            if not apply(msg, model, op, k):
+                res.skip("operation does not apply to the current header list")
+                continue
+            done.append(op)
+            if not compare(msg, model, done):
+                return res
+        res.states += 1 + len(done)
+    return res
+
+
+# ------------------------------------------------------------------ engine: chain-ext (per-header bits, repeated header, long chains)
+CHAIN_BITS = [0x207FFFFF, 0x2000FFFF, 0x1F7FFFFF]
+
+
+def gen_chain_ext(tier, seed):
+    import itertools
+
+    first = [(b, p, "start") for b in range(3) for p in ("good", "bad")]
+    rest = [(b, p, l) for b in range(3) for p in ("good", "bad") for l in ("ok", "bitflip")] + [(0, "good", "repeat")]
+    cases = []
+    for ln in range(1, 4):
+        for combo in itertools.product(first, *([rest] * (ln - 1))):
+            cases.append({"kind": "bits", "chain": [list(x) for x in combo], "seed": seed})
+    for L in [60] if tier == "quick" else [60, 2000]:
+        cases.append({"kind": "long", "len": L, "brk": "none", "pos": 0, "seed": seed})
+        for pos in (0, L // 2, L - 1):
+            cases.append({"kind": "long", "len": L, "brk": "pow", "pos": pos, "seed": seed})
+        for pos in (1, L // 2, L - 1):
+            cases.append({"kind": "long", "len": L, "brk": "link", "pos": pos, "seed": seed})
+    return cases
+
+
+def run_chain_ext(case):
+    from buidl.network import HeadersMessage
+
+    res = Res()
+    seed = case["seed"]
+    vc = {"engine": "chain-ext", "case": case}
+    headers = []
+    expect = True
+    if case["kind"] == "bits":
+        for i, (b, powk, link) in enumerate(case["chain"]):
+            if link == "repeat":
+                headers.append(headers[-1])
+                expect = False  # a header never names its own hash as predecessor
+                continue
+            prev = filler(seed, "xprev", 0) if i == 0 else R.header_id(headers[-1])
+            if link == "bitflip":
+                prev = _flip(prev, (i * 67 + 5) % 256)
+                expect = False
+            if powk == "bad":
+                expect = False
+            headers.append(mine(1, prev, filler(seed, "xroot", i), 1600000000 + i, CHAIN_BITS[b], powk == "good"))
+        nt = repr(case["chain"]) if len(headers) >= 2 else None
+    else:
+        L, brk, pos = case["len"], case["brk"], case["pos"]
+        prev = b"\x00" * 32
+        for i in range(L):
+            good = True
+            if brk == "pow" and i == pos:
+                good = False
+            if brk == "link" and i == pos:
+                prev = _flip(prev, (pos * 67 + 5) % 256)
+            raw = mine(1, prev, filler(seed, "lroot", i % 7), 1600000000 + i, 0x207FFFFF, good)
+            headers.append(raw)
+            prev = R.header_id(raw)
+        expect = brk == "none"
+        nt = (L, brk, pos)
+    assert R.chain_valid(headers) == expect
+
+    def go():
+        msg = HeadersMessage.parse(BytesIO(R.ser_headers_msg(headers)))
+        assert len(msg.headers) == len(headers)
+        return msg.is_valid()
+
+    got = attempt(go)
+    res.states += len(headers) + 1
+    res.transitions += len(headers)
+    if (got is True) != expect:
+        if expect:
+            cls = "valid-chain-rejected"
+        elif case["kind"] == "long":
+            cls = f"broken-chain-accepted/long-{case['brk']}"
+        elif any(l == "repeat" for _, _, l in case["chain"]):
+            cls = "broken-chain-accepted/repeated-header"
+        elif any(l == "bitflip" for _, _, l in case["chain"]):
+            cls = "broken-chain-accepted/link"
+        else:
+            cls = "broken-chain-accepted/pow"
+        res.violation(f"C17/chain-ext/{cls}", vc, {"is_valid": repr(got)}, expect, "HeadersMessage.is_valid disagrees with proof-of-work + linkage of every header")
+    else:
+        res.ok("chain:accepted" if expect else "chain:rejected", nt, sample={"len": len(headers), "valid": expect, "kind": case["kind"]} if case["kind"] == "long" and case["brk"] in ("none", "link") and case["pos"] <= 1 else None)
+    return res
+
+
 # ------------------------------------------------------------------ registry
 def engines(tier, seed):
     def with_tier(gen):
@@ -1035,7 +1798,8 @@ def engines(tier, seed):
             rule="every proof of every tree with 1..7 (thorough 1..10) leaves x all match subsets x {every single bit of every hash, of the header root, of every flag byte, "
             "bits 0..16 of the transaction count (bits 17..20 quick / 17..24 thorough only for trees <= 3 leaves, higher bits skipped: the library allocates the whole claimed tree), count set to 0/n-1/n+1/2n/2n+1/ceil(n/2), flag bytes dropped/appended, "
             "each hash dropped, duplicated, swapped with its neighbour, a foreign hash prepended/appended}. Oracle: is_valid() True => every proved id is a block id; "
-            "for altered hash lists / root additionally is_valid() must not be True. Non-trivial = each (proof, alteration)",
+            "for altered hash lists / root additionally is_valid() must not be True. Non-trivial = each (proof, alteration). Outside what is asserted: depth-truncated proofs "
+            "(several fields altered together: a smaller transaction count with the hashes replaced by inner nodes make an inner node appear as a transaction id; BIP37 does not commit to the tree depth, Bitcoin Core accepts the same proof)",
         ),
         Engine(
             "header",
@@ -1043,7 +1807,7 @@ def engines(tier, seed):
             run_header,
             kind="E1",
             rule="9 versions x 5 prev hashes x 5 merkle roots x 6 times x 6 bits x 5 nonces boundary product (40 500 headers) + every value of every one of the 80 bytes of a filler header "
-            "(thorough: 3 filler headers): parse_header fields, parse->serialize, Block(...).serialize, hash(), id() against the reference encoder / double-SHA256",
+            "(thorough: 3 filler headers): parse_header fields, parse->serialize, parse_header(hex=...) fields and bytes, Block(...).serialize, hash(), id() against the reference encoder / double-SHA256",
         ),
         Engine(
             "compact",
@@ -1062,7 +1826,9 @@ def engines(tier, seed):
             kind="E1",
             rule="(a) 2 header templates x exponents 0x1c..0x24 x 12 mantissas (incl. sign bit, zero, overflowing) x every nonce 0..255 (thorough 0..3071) with the real double-SHA256: "
             "check_pow == CheckProofOfWork without the network limit; (b) buidl.block.hash256 replaced by an enumerated digest: exponents 0..40,0x7f,0x80,0xfe,0xff x 9 mantissas x sign x "
-            "digests {0,1,T-1,T,T+1,2^256-1,byte-reversed T,T/2,filler}; (c) 7 real headers. Non-trivial = each (bits, digest) pair; both outcomes are counted",
+            "digests {0,1,T-1,T,T+1,2^256-1,byte-reversed T,T/2,filler}; (c) 7 real headers. Non-trivial = each (bits, digest) pair; both outcomes are counted. "
+            "Outside what is asserted: the network proof-of-work limit (target <= powLimit of mainnet / testnet / regtest) - Block.check_pow has no network context, so targets above every network's limit "
+            "(e.g. bits 0x2100ffff) are expected to be accepted when hash <= target",
         ),
         Engine(
             "retarget",
@@ -1071,7 +1837,7 @@ def engines(tier, seed):
             kind="E1",
             chunk=40,
             rule="previous bits: exponents 1..0x21 x 9 mantissas x time differentials {-2^31,-TS,-1,0,1,TS/2,2TS,8TS,2^31-1,2^32, first mainnet retarget} U [c-3,c+3] (thorough [c-48,c+48]) "
-            "for c in {TS/4, TS, 4TS}: calculate_new_bits == CalculateNextWorkRequired(mainnet limit). Skipped: previous bits that cannot occur in a valid mainnet block, "
+            "for c in {TS/4, TS, 4TS}: calculate_new_bits == CalculateNextWorkRequired(mainnet limit); thorough adds exponents 0x17..0x1d x every 0x1357-th mantissa of [0x008000, 0x800000) x the same differentials. Skipped: previous bits that cannot occur in a valid mainnet block, "
             "and inputs/outputs on which the library's own conversions already disagree with the reference (reported by engine compact)",
         ),
         Engine(
@@ -1082,6 +1848,84 @@ def engines(tier, seed):
             chunk=100,
             rule="all header chains of length 0..3 (thorough 0..4) over per-header alphabets pow in {good, bad at regtest bits, bad at mainnet bits} x link in {ok, one bit flipped, zero, "
             "grandparent, predecessor's merkle root} (first header: prev zero/filler), mined by the harness at bits 0x207fffff, sent through HeadersMessage.parse: is_valid() == "
-            "(every header satisfies its proof of work and names its predecessor's hash). states/transitions = headers consumed. Non-trivial = chains of >= 2 headers",
+            "(every header satisfies its proof of work and names its predecessor's hash). states/transitions = headers consumed. Non-trivial = chains of >= 2 headers. "
+            "Outside what is asserted: the network proof-of-work limit (HeadersMessage.is_valid has no network context; headers at regtest difficulty or easier are accepted)",
+        ),
+        Engine(
+            "spv-deep",
+            gen_spv_deep,
+            run_spv_deep,
+            kind="E1",
+            chunk=1,
+            rule="tampering of deep trees: leaf counts {11,13,16,17,33,65,257} (thorough {11..17,31..33,63..65,100,127..129,255,257,1000,1023,1025,5000}) x match sets {first,last,middle,first+last,last two} "
+            "(+ none, odds, all, every third for n <= 130) x {one bit of every hash (bit (37i+11n) mod 256 of hash i), root bits {0,1,127,128,254,255}, every bit of every flag byte, flag bytes dropped/appended, "
+            "transaction-count bits 0..17, count set to 1,2,n-1,n+1,2n,2n+1,floor(n/2),ceil(n/2), each hash dropped / duplicated / swapped with its neighbour, a foreign hash prepended/appended}. "
+            "Same oracle as spv-tamper (is_valid() True => only block ids proved; altered hash list / root => not valid); depth-truncated multi-field proofs are outside what is asserted. Non-trivial = each (proof, alteration)",
+        ),
+        Engine(
+            "root-dup",
+            gen_root_dup,
+            run_root_dup,
+            kind="E1",
+            rule="EVERY list of length 1..6 (thorough 1..8) over a 3-letter alphabet of 32-byte hashes (so repeated and adjacent-equal elements in every position): merkle_root, merkle_parent_level, "
+            "Block.validate_merkle_root (correct root accepted, bit-flipped root rejected) against the reference. Non-trivial = lists with a repeated element",
+        ),
+        Engine(
+            "spv-dup",
+            gen_spv_dup,
+            run_spv_dup,
+            kind="E1",
+            rule="proofs over repeated hashes, built by the reference BIP37 builder: (a) every block of 2..4 (thorough 2..6) ids over a 3-letter alphabet with at least one repeated id x all match subsets; "
+            "(b) for every block of n <= 7 (thorough 11) distinct ids that has an odd level: the lists with the SAME Merkle root obtained by repeating the last node of an odd level (size <= 8, thorough 12), "
+            "transaction count raised accordingly, x all match subsets of the longer list, against the real header. Asserted (statement only): is_valid() True => every proved id is an id of the block. "
+            "The verdict is recorded per outcome together with the reference extractor's (which, like Bitcoin Core, rejects identical left/right hashes) and is NOT asserted",
+        ),
+        Engine(
+            "blockparse",
+            gen_blockparse,
+            run_blockparse,
+            kind="E1",
+            chunk=1,
+            rule="Block.parse entry point: blocks of n = 1..7 (thorough 9) hand-serialised transactions (1-2 inputs, 1-3 outputs) x all 2^n legacy / segwit (marker, flag, witness stacks) patterns: "
+            "tx_hashes == double-SHA256 of the witness-stripped serialisation (reversed) in block order, validate_merkle_root() True for the root of the txids and False for the root of the wtxids, "
+            "a bit-flipped root and the root with the first two ids swapped; hash() == id of the first 80 bytes. Non-trivial = each (n, pattern)",
+        ),
+        Engine(
+            "target",
+            gen_target,
+            run_target,
+            kind="E1",
+            rule="Block.target() and Block.difficulty() for exponents 3..0x22 x ~11 000 structured mantissas (non-negative, non-overflowing): target() == SetCompact integer; for target != 0 "
+            "difficulty() == the double (0xffff / mantissa) * 2^(8*(0x1d-exponent)) = correctly rounded 0xffff*2^208 / target. Skipped: negative / overflowing bits, difficulty of target 0",
+        ),
+        Engine(
+            "block-reuse",
+            gen_block_reuse,
+            run_block_reuse,
+            kind="E2",
+            rule="histories on ONE Block object: every sequence of 3 (thorough 4) assignments over {version, prev_block, merkle_root, timestamp, bits, nonce: 3 values each (the first = initial value); tx_hashes: 3 lists + "
+            "in-place replacement of the last id} (22 operations); before the first and after every assignment serialize(), hash(), id(), check_pow(), target(), validate_merkle_root() must equal the reference "
+            "computed from the assigned fields (a mismatch that a FRESH object shows too is left to engines header/pow/root); + one object whose nonce runs over 0..511 (thorough 0..8191). "
+            "states = observations, transitions = assignments observed",
+        ),
+        Engine(
+            "chain-reuse",
+            gen_chain_reuse,
+            run_chain_reuse,
+            kind="E2",
+            rule="histories on ONE HeadersMessage object parsed from 3 linked harness-mined headers: every sequence of 3 (thorough 4) operations over {headers[i] replaced by a header with bad proof of work / a "
+            "flipped prev / the original; headers[i].nonce, headers[i].prev_block assigned in place, headers[i] restored in place (i < 3); neighbours swapped; last header popped; a linked / an unlinked header appended} "
+            "(23 operations): is_valid() before the first and after every applicable operation == reference verdict of the current header list (a mismatch that a fresh message shows too is left to engine chain). "
+            "The network proof-of-work limit is outside what is asserted",
+        ),
+        Engine(
+            "chain-ext",
+            gen_chain_ext,
+            run_chain_ext,
+            kind="E2",
+            chunk=40,
+            rule="(a) all chains of 1..3 headers over per-header bits {0x207fffff, 0x2000ffff, 0x1f7fffff} x pow {good, bad} x link {ok, one bit flipped} + link option 'the previous header repeated byte for byte', "
+            "harness-mined; (b) chains of 60 (thorough also 2000) headers, unbroken and with the proof of work broken at the first / middle / last header or one link broken at the second / middle / last header: "
+            "HeadersMessage.is_valid() == reference (own proof of work + predecessor hash for every header; no network proof-of-work limit)",
         ),
     ]
